@@ -416,6 +416,13 @@ func ExclusionBelow(mo *m.Model, object, relation string) bool {
 	return found
 }
 
+// ExclusionGrantThroughSortedReadDedup: the structural precondition of the grant variant of
+// SigSortedReadDedup (an exclusion in the model and a user/wildcard pair on one object#relation of
+// which not both are effective).
+func ExclusionGrantThroughSortedReadDedup(w gen.World, r m.Request) bool {
+	return hasDifference(w.Model) && UserAndWildcardOnSameObjectNotBothEffective(w, r)
+}
+
 func hasDifference(mo *m.Model) bool {
 	found := false
 	for _, td := range mo.Types {
